@@ -111,6 +111,18 @@ def values(tier):
     for n, f, c in ATOMS:
         yield [n], f, {'kind': c, 'native': n in NATIVE_ATOMS, 'tabular': False}
     yield ['response'], None, {'kind': 'response', 'native': False, 'tabular': False}
+    # responses that are not werkzeug's full Response class: a bare BaseResponse, one of clastic's HTTP errors returned
+    yield ['base-response'], None, {'kind': 'response', 'native': False, 'tabular': False}
+    yield ['returned-http-error'], None, {'kind': 'response', 'native': False, 'tabular': False}
+    import collections
+    import types as _types
+    # mappings that are not dicts
+    for nm, mkm in (('mappingproxy', lambda: _types.MappingProxyType({'k': 'plain', 'n': 1})),
+                    ('chainmap', lambda: collections.ChainMap({'k': 'plain'}, {'n': 1})),
+                    ('userdict', lambda: collections.UserDict({'k': 'plain', 'n': 1})),
+                    ('ordereddict', lambda: collections.OrderedDict([('k', 'plain'), ('n', 1)]))):
+        yield [nm], mkm, {'kind': 'container', 'native': False, 'tabular': False, 'mapping': True}
+        yield ['dict-of-' + nm], (lambda mkm=mkm: {'o': mkm(), 'p': 1}), {'kind': 'container', 'native': False, 'tabular': False}
     names = [n for n, f, c in ATOMS if c != 'generator']
 
     def mk(n):
@@ -166,7 +178,8 @@ def values(tier):
 
 def norm(v):
     """What a dev-mode JSON rendering of v must parse back to."""
-    if isinstance(v, dict):
+    import collections.abc as _abc
+    if isinstance(v, _abc.Mapping):
         return dict((k, norm(x)) for k, x in v.items() if isinstance(k, str))
     if isinstance(v, (set, frozenset)):
         return SetList(norm(x) for x in v)
@@ -307,8 +320,19 @@ def html_wanted(fmt, accept):
 def check_value(acc, A, desc, factory, info, fresh_cache):
     Response = A.Response
     if info['kind'] == 'response':
-        def factory():
-            return Response('direct response', status=202, mimetype='text/x-direct')
+        if desc[0] == 'base-response':
+            from werkzeug.wrappers import BaseResponse
+
+            def factory():
+                return BaseResponse('direct response', status=202, mimetype='text/x-direct')
+        elif desc[0] == 'returned-http-error':
+            from clastic.errors import Conflict
+
+            def factory():
+                return Conflict('direct response')
+        else:
+            def factory():
+                return Response('direct response', status=202, mimetype='text/x-direct')
     A.current = factory
     sample_value = factory()
     kind = info['kind']
@@ -344,7 +368,10 @@ def check_value(acc, A, desc, factory, info, fresh_cache):
                 continue
             body = res.body or b''
             if kind == 'response':
-                if res.code != 202 or body != b'direct response' or ct != 'text/x-direct':
+                if desc[0] == 'returned-http-error':
+                    if res.code != 409 or b'direct response' not in body:
+                        bad('response-altered', 'an HTTP error returned by the endpoint was rendered instead of being the response')
+                elif res.code != 202 or body != b'direct response' or ct != 'text/x-direct':
                     bad('response-altered', 'a Response returned by the endpoint was not passed through')
                 continue
             if route in ('/basic', '/basicdoc', '/basicexec'):
